@@ -715,6 +715,23 @@ class Engine:
             else:
                 try:
                     val = self.eval(v.value, frame)
+                    spec = v.format_spec
+                    if spec is not None:
+                        fs = spec.values[0].value if (isinstance(spec, ast.JoinedStr) and len(spec.values) == 1 and isinstance(spec.values[0], ast.Constant)) else None
+                        if fs == "b":
+                            from . import strings
+                            tv = self.to_tv(val)
+                            self.implicit_raise(z3.Not(S.is_intlike(tv.val())) if tv.sort == "val" else z3.BoolVal(tv.sort not in ("int", "bool")), "ValueError", node, "format spec b")
+                            self.run.uses_strlib = True
+                            x = tv.as_int()
+                            if self.run.merge_depth > 0 or self.run.merge_only:
+                                parts.append(z3.If(x >= 0, strings.BIN_STR(x), z3.Concat(z3.StringVal("-"), strings.BIN_STR(-x))))
+                            elif self.branch(x >= 0, "format-b-sign"):
+                                parts.append(strings.BIN_STR(x))
+                            else:
+                                parts.append(z3.Concat(z3.StringVal("-"), strings.BIN_STR(-x)))
+                            continue
+                        raise Unsupported("format spec")
                     parts.append(self.B.str_of(self, val, frame, loose=True))
                 except Unsupported:
                     # message text only: an opaque string (formatting of unsupported sub-expressions)
@@ -1108,6 +1125,10 @@ class Engine:
                     # field not set yet on a fresh object
                     self.implicit_raise(z3.BoolVal(True), "AttributeError", node, f"unset field {attr}")
                     return self.dead_value()
+                return self.read_field(base, attr)
+            if fr is None and attr.startswith("_") and not attr.startswith("__"):
+                # a private field this class never assigns itself (set from outside, e.g. Readout._subcircuit)
+                self.run.assumptions_used.add(f"field {cls.name}.{attr} is set by its users before it is read")
                 return self.read_field(base, attr)
             self.implicit_raise(z3.BoolVal(True), "AttributeError", node, f"no attribute {attr} on {cls.name}")
             return self.dead_value()
@@ -2053,3 +2074,4 @@ class Run:
         raise Unsupported("in-place update of in-world set")
 
     uses_bits = False
+    uses_strlib = False
